@@ -481,7 +481,7 @@ PROPS = {
              "addresses) is sampled: every mapping is written twice per process, by 8 separately started processes and "
              "from 8 concurrent threads, and every output must equal the model's bytes and its own header-implied length.",
              "representable grammar mappings (every 25th with up to 120 classes) and corpus files, two writes each, in 8 "
-             "processes and 8 threads; non-trivial = file with at least one class; distinct by mapping",
+             "processes and 8 threads, and re-written from the same bytes placed at each of the 8 addresses modulo 8; non-trivial = file with at least one class; distinct by mapping",
              "partial: determinism of the real process is sampled, not proved",
              modes=["run", "run p2", "run p3", "run p4", "run p5", "run p6", "run p7", "run p8", "run-threads 8"]),
     "C15": P(["C15_canonical", "C15_success_means_canonical", "C15_failure_reported", "C15_only_a_prefix",
@@ -500,7 +500,7 @@ PROPS = {
              "ProguardMapping::uuid is compared with this independent SHA-1 computation (FIPS 180-4 model in Coq, "
              "validated by test vectors) on empty, corpus, LF/CRLF and random inputs.",
              "empty file, corpus files and their CRLF variants, grammar mappings, random bytes with lengths around the "
-             "SHA-1 block and padding boundaries (thorough: up to 1 MiB); non-trivial = every case; distinct by bytes",
+             "SHA-1 block and padding boundaries (thorough: up to 1 MiB), each also hashed in a buffer that held a one-byte-different text of the same length before (in-place overwrite), sections of hashed mappings; non-trivial = every case; distinct by bytes",
              "partial: equality of the uuid/sha1_smol code with the model is sampled"),
     "C19": P(["C19_has_line_info", "C19_summary", "C19_last_header", "C19_is_valid", "C19_window_is_50", "C19_has_line_info_concat", "C19_summary_concat"],
              "Theorems: has_line_info = exists a method record with line mapping anywhere in the complete stream; summary "
